@@ -135,6 +135,30 @@ def check(rep, an, tier):
                 R.rule_index_space(rep, res, ent)
                 F.qty(rep, res, ent, allow=allow, subs=("mismatch", "literal"))
                 R.rule_effect_free(rep, res, ent, reg=_reg(an))
+                # the hull tested against is spanned by the gamut's vertices: it depends on the system and on BOTH registered bounds
+                for mv in res.events("membership_call")[:2]:
+                    Pv = mv.d.get("P")
+                    if Pv is None:
+                        continue
+                    pd = {x.split("|")[0] for x in Pv.flat().data}
+                    for o in ("self.A", "self.lb", "self.ub"):
+                        rep.check("R-FLOW", f"{o} → vertices of the hull tested by in_hull", o in pd, where=mv.loc, construct=f"{o} → P of {mv.text()[:50]}",
+                                  entry=ent, config=res.config,
+                                  msg=f"the point set handed to the membership test depends on {sorted(pd)} but not on {o}: it is not the set of "
+                                      f"captures of all bound combinations (e.g. single sources at their upper bound span the gamut's chromaticities "
+                                      f"only for lb = 0 and baseline = 0)")
+                # the verdict handed back is the geometry layer's verdict: not and-ed / or-ed with a second predicate on the targets alone
+                for rv in [r_ for r_ in res.events("return") if len(r_.path) == 1]:
+                    bc = rv.d["val"].flat().tag("bool_combined") or rv.d["val"].tag("bool_combined")
+                    if bc is None:
+                        continue
+                    extra = [o for o in bc[1:] if not ({"self.A", "A"} & {x.split("|")[0] for x in o.flat().data})]
+                    if extra:
+                        rep.violated("R-FLOW", "the returned verdict is the membership test's verdict", where=rv.loc, construct=rv.text()[:80],
+                                     entry=ent, config=res.config,
+                                     msg=f"the gamut verdict is combined ({bc[0]}) with a predicate that does not involve the system at all (it depends on "
+                                         f"{sorted(extra[0].flat().data)} only): captures that in-bound intensities produce are rejected (or unreachable ones "
+                                         f"accepted) whenever that predicate disagrees — e.g. negative capture components under an opponent K")
     rep.require("R-QTY", 10)
     rep.require("R-FLOW", 30)
     rep.require("R-FORWARD", 20)
